@@ -51,7 +51,8 @@ class Bd(Harness):
                  BD + ':BlockDiagonalizer._get_sub_channel',
                  BD + ':BlockDiagonalizer.calc_receive_filter',
                  MISC + ':least_right_singular_vectors', WF + ':doWF')
-    bounds = ('K=2 users x 1 antenna (quick); + K=3 x 1 and K=2 x 2 antennas '
+    bounds = ('K=2 users x 1 antenna with and without water-filling (quick); '
+              '+ K=3 x 1 and K=2 x 2 antennas without water-filling '
               '(thorough); symbolic iPu > 0, noise variance > 0')
     stubs = ('np.linalg.svd -> contract stub', 'np.linalg.matrix_rank -> '
              'generic rank min(shape)', 'np.linalg.pinv -> contract stub',
@@ -74,8 +75,8 @@ class Bd(Harness):
     def configs(self, tier):
         out = [dict(K=2, n=1, wf=False), dict(K=2, n=1, wf=True)]
         if tier != 'quick':
-            out += [dict(K=3, n=1, wf=False), dict(K=3, n=1, wf=True),
-                    dict(K=2, n=2, wf=False)]
+            # (K=3 with water-filling was tried: > 15 min for one unit)
+            out += [dict(K=3, n=1, wf=False), dict(K=2, n=2, wf=False)]
         return out
 
     def sym(self, ctx, cfg):
